@@ -118,6 +118,19 @@ CLAIMS = {
         "technique": "TLA+ exact-rational Gaussian algebra with cross-derivation lemmas; TLC-generated cases replayed on the code; TLC trace validation",
         "design_ref": "6/C20",
     },
+    "C18": {
+        "text": ("spec/Gen_C18.tla: independence assertions up to symmetry, semi-graphoid closure as a least fixed point (decomposition, weak union, "
+                 "contraction); TLC validates the rules against the trail definition (the d-separation statements of every DAG on 4 nodes are closed "
+                 "under them), enumerates every premise set of <=2 assertions over 4 variables with its closure (replayed on closure/entails/"
+                 "is_equivalent), decides X_|_Y|Z on explicit joint tables by exact cross-multiplication incl. context-specific cases (replayed on "
+                 "check_independence), and computes the set of DAGs that are I-maps of each joint (minimal_imap under every order must return one). "
+                 "is_iequivalent is replayed on all pairs of DAGs on <=3 nodes and all same-skeleton pairs on 4 nodes against the equivalence "
+                 "classes enumerated by TLC (skeleton + v-structures, lemma: = same d-separation statements via Gen_C12's class/CPDAG lemmas)."),
+        "note": ("Known findings are modelled in the spec as named deviation rules (ContrLoose, CodeImap) so that only behaviour equal to the recorded "
+                 "deviation is suppressed: closure's contraction with extra conditioning variables; minimal_imap's union-of-subsets rule."),
+        "technique": "TLA+ semi-graphoid closure / exact independence on joints / I-map sets; TLC-enumerated cases replayed on the code",
+        "design_ref": "6/C18",
+    },
 }
 
 NOT_APPLICABLE = {}
